@@ -27,19 +27,48 @@ import (
 	"strings"
 )
 
-var files = []string{
-	"validatornode/application/verification/blockchain.go",
-	"validatornode/application/verification/utxos_registry.go",
-	"validatornode/application/verification/addresses_registry.go",
-	"validatornode/application/validation/transactions_pool.go",
-	"validatornode/domain/ledger/input.go",
-	"validatornode/domain/ledger/input_info.go",
-	"validatornode/domain/ledger/output.go",
-	"validatornode/domain/ledger/transaction.go",
-	"validatornode/domain/ledger/block.go",
-	"validatornode/domain/ledger/utxo.go",
-	"validatornode/domain/encryption/signature.go",
-	"validatornode/domain/encryption/public_key.go",
+var fileSets = map[string][]string{
+	"core": {
+		"validatornode/application/verification/blockchain.go",
+		"validatornode/application/verification/utxos_registry.go",
+		"validatornode/application/verification/addresses_registry.go",
+		"validatornode/application/validation/transactions_pool.go",
+		"validatornode/domain/ledger/input.go",
+		"validatornode/domain/ledger/input_info.go",
+		"validatornode/domain/ledger/output.go",
+		"validatornode/domain/ledger/transaction.go",
+		"validatornode/domain/ledger/block.go",
+		"validatornode/domain/ledger/utxo.go",
+		"validatornode/domain/encryption/signature.go",
+		"validatornode/domain/encryption/public_key.go",
+	},
+	"neigh": {
+		"validatornode/application/network/neighborhood.go",
+		"validatornode/application/network/target.go",
+	},
+	"wallet": {
+		"accessnode/presentation/api/payment/info_controller.go",
+		"accessnode/presentation/api/payment/progress_controller.go",
+		"accessnode/presentation/api/payment/progress_info.go",
+		"accessnode/presentation/api/payment/transaction_info.go",
+		"accessnode/presentation/api/wallet/amount_controller.go",
+	},
+	"clock": {
+		"validatornode/domain/clock/engine.go",
+	},
+	"codec": {
+		"validatornode/domain/ledger/input.go",
+		"validatornode/domain/ledger/input_info.go",
+		"validatornode/domain/ledger/output.go",
+		"validatornode/domain/ledger/transaction.go",
+		"validatornode/domain/ledger/transaction_request.go",
+		"validatornode/domain/ledger/block.go",
+		"validatornode/domain/ledger/utxo.go",
+		"validatornode/presentation/api/history/blocks_controller.go",
+		"validatornode/presentation/api/network/senders_controller.go",
+		"validatornode/presentation/api/payment/transactions_controller.go",
+		"validatornode/presentation/api/wallet/utxos_controller.go",
+	},
 }
 
 // utxo.go's formula functions are the decay engine's subject (regenerated and tied by rfl there)
@@ -163,6 +192,19 @@ func (n *namer) expr(e ast.Expr) string {
 		return "struct{" + strings.Join(fs, ";") + "}"
 	case *ast.InterfaceType:
 		return "interface"
+	case *ast.FuncType:
+		var ps, rs []string
+		if x.Params != nil {
+			for _, f := range x.Params.List {
+				ps = append(ps, n.expr(f.Type))
+			}
+		}
+		if x.Results != nil {
+			for _, f := range x.Results.List {
+				rs = append(rs, n.expr(f.Type))
+			}
+		}
+		return "func(" + strings.Join(ps, ",") + ")" + strings.Join(rs, ",")
 	case *ast.Ellipsis:
 		return "..." + n.expr(x.Elt)
 	default:
@@ -305,7 +347,13 @@ type fn struct {
 
 func main() {
 	repo := flag.String("repo", "/repo", "repository root")
+	set := flag.String("set", "core", "file set: core | neigh | wallet | clock | codec")
 	flag.Parse()
+	files, ok := fileSets[*set]
+	if !ok {
+		fmt.Fprintln(os.Stderr, "unknown set", *set)
+		os.Exit(2)
+	}
 	var res []fn
 	fset := token.NewFileSet()
 	for _, f := range files {
